@@ -97,10 +97,29 @@ def unknown_path_rule(F, rep):
                 bad.append((p, tir.sp(n)))
     rep.ob("unknown.no-effect", not bad, fn, "state-writes", "outside the known-event arms parse_event writes %s (only event_counts, bytes_read and the splitter accumulator may change for an unknown event)" % bad[:4],
            sample={"state_writes_outside_arms": n_out})
-    # splitter accumulator writes are under the MessageSplitter code test
-    for n in tir.walk(root):
-        if n.get("k") == "If" and "MessageSplitter" in tir.pretty(n["cond"]) and id(n) not in inside:
-            rep.ob("unknown.splitter-guard", "code" in tir.pretty(n["cond"]), fn, "splitter", "the splitter accumulator may only be touched for the splitter's own code")
+    # the splitter accumulator may only be touched on the then-branch of `code == MessageSplitter`: any other event
+    # (known or unknown) arriving between two blocks must leave the partial message alone
+    par = safety.parents(root)
+    n_acc = 0
+    for p, n in mutations(root):
+        if p is None or not p.startswith("state.split_accumulator") or id(n) in inside:
+            continue
+        n_acc += 1
+        y = n
+        ok = False
+        while id(y) in par:
+            prev, y = y, par[id(y)]
+            if y.get("k") == "If":
+                c = strip(y["cond"])
+                is_split_test = c.get("k") == "Binary" and c.get("op") == "Eq" and "MessageSplitter" in tir.pretty(c) and "code" in [tir.place(c["l"]), tir.place(c["r"])]
+                in_then = any(z is n for z in tir.walk(y["then"]))
+                if is_split_test and in_then:
+                    ok = True
+                    break
+                if is_split_test and not in_then:
+                    break
+        rep.ob("unknown.splitter-guard", ok, fn, p, "%s: the split-message accumulator is modified at %s for an event that is not a Message Splitter block: an unknown event between two blocks would corrupt the assembled Gecko codes" % (fn, tir.sp(n)), tir.sp(n))
+    rep.counts["unknown.accumulator_writes"] = n_acc
     # falls through to Ok(code)
     val = L.strip_try(root)
     tail = L.strip_try(val.get("tail") or {})
